@@ -1,0 +1,77 @@
+//go:build verif
+
+// Machine-checked contracts for package banner (read by /verif/bin/gvc; comment-only, adds no declarations).
+package banner
+
+// ---- the three predicates, against the property's wording (C14) ----
+//@ func isHTMLRequest props(C14,C07)
+//@   requires r != nil
+//@   assigns nothing
+//@   ensures[C14:get-accepting-html] r0 <==> (r.Method == "GET" && contains(hget(r.Header, "Accept"), "text/html"))
+
+//@ pure isAttachment(h ref) bool = exists(i, 0, len(values(h, "Content-Disposition")), contains(values(h, "Content-Disposition")[i], "attachment"))
+//@ pure isHTMLType(h ref) bool = exists(i, 0, len(values(h, "Content-Type")), contains(values(h, "Content-Type")[i], "text/html") || contains(values(h, "Content-Type")[i], "application/xhtml+xml"))
+//@ func isFrameableHTMLResponse props(C14,C07)
+//@   assigns nothing
+//@   ensures[C14:frameable-iff-200-html-not-attachment] r0 <==> (statusCode == 200 && !isAttachment(responseHeader) && isHTMLType(responseHeader))
+//@   loop 1
+//@     invariant[C14:no-attachment-so-far] statusCode == 200 && forall(i, 0, idx + 1, !contains(values(responseHeader, "Content-Disposition")[i], "attachment"))
+//@   loop 2
+//@     invariant[C14:no-html-type-so-far] statusCode == 200 && !isAttachment(responseHeader) && forall(i, 0, idx + 1, !(contains(values(responseHeader, "Content-Type")[i], "text/html") || contains(values(responseHeader, "Content-Type")[i], "application/xhtml+xml")))
+
+//@ func isAlreadyFramed props(C14,C07)
+//@   requires r != nil && r.URL != nil
+//@   assigns nothing
+//@   ghost pu *url.URL = nil
+//@   ghost perr ref = nil
+//@   ghost parsed bool = false
+//@   call url.Parse
+//@     assert[C14:parse-the-referer] arg0 == hget(r.Header, "Referer") && arg0 != ""
+//@     do pu = ret0
+//@     do perr = ret1
+//@     do parsed = true
+//@   ensures[C14:framed-iff-browser-says-so-or-self-referer] r0 <==> (hget(r.Header, "Sec-Fetch-Mode") == "nested-navigate" || hget(r.Header, "Sec-Fetch-Dest") == "iframe"
+//@   |   || (parsed && perr == nil && pu.Host == r.Host && pu.Path == r.URL.Path))
+//@   ensures[C14:referer-consulted-only-as-fallback] parsed ==> hget(r.Header, "Sec-Fetch-Mode") != "nested-navigate" && hget(r.Header, "Sec-Fetch-Dest") != "iframe"
+
+// ---- the response writer (C14) ----
+// rwHeader[x] is the map x.Header() returns; the banner writer's Header() delegates to the wrapped writer, hence
+// rwHeader[box(w)] == rwHeader[w.wrapped] (stated as a precondition of the methods that pass w on as a ResponseWriter).
+//@ pure sameHeader(h ref, k string) bool = (in(k, h) <==> old(in(k, h))) && h[k] == old(h[k])
+//@ func (*bannerResponseWriter).WriteHeader props(C14,C07)
+//@   requires w != nil && w.wrapped != nil && w.targetURL != nil && rwHeader[w.wrapped] != nil && (!w.wroteHeader ==> !w.writeBytes) && rwHeader[box(w)] == rwHeader[w.wrapped]
+//@   assigns w.wroteHeader, w.writeBytes, mapof(rwHeaderOf(w.wrapped)), ghost rwStatus, ghost rwWrites
+//@   ghost frameable bool = false
+//@   ghost asked bool = false
+//@   ghost commits int = 0
+//@   ghost bodyWrites int = 0
+//@   call isFrameableHTMLResponse
+//@     assert[C14:decide-on-this-response] !asked && arg0 == statusCode && arg1 == rwHeaderOf(w.wrapped)
+//@     do asked = true
+//@     do frameable = ret0
+//@   call (http.ResponseWriter).WriteHeader
+//@     assert[C14:status-unchanged] arg0 == w.wrapped && arg1 == statusCode && commits == 0 && asked
+//@     assert[C14:non-html-headers-untouched] !frameable ==> forall_str(k, sameHeader(rwHeaderOf(w.wrapped), k))
+//@     assert[C14:framed-html-marked-uncacheable-and-sameorigin] frameable ==> len(values(rwHeaderOf(w.wrapped), "X-Frame-Options")) == 1 && values(rwHeaderOf(w.wrapped), "X-Frame-Options")[0] == "sameorigin"
+//@     |   && len(values(rwHeaderOf(w.wrapped), "Cache-Control")) == 1 && values(rwHeaderOf(w.wrapped), "Cache-Control")[0] == "no-cache, no-store, max-age=0, must-revalidate"
+//@     |   && len(values(rwHeaderOf(w.wrapped), "Pragma")) == 1 && values(rwHeaderOf(w.wrapped), "Pragma")[0] == "no-cache" && in("Expires", rwHeaderOf(w.wrapped)) && in("Date", rwHeaderOf(w.wrapped))
+//@     assert[C14:only-cache-and-frame-headers-change] frameable ==> forall_str(k, k != "Cache-Control" && k != "Date" && k != "Expires" && k != "Pragma" && k != "X-Frame-Options" && k != "Content-Encoding" ==> sameHeader(rwHeaderOf(w.wrapped), k))
+//@     assert[C14:already-framed-keeps-encoding] frameable && w.isAlreadyFramed ==> sameHeader(rwHeaderOf(w.wrapped), "Content-Encoding")
+//@     do commits = commits + 1
+//@   call (http.ResponseWriter).Write
+//@     assert[C14:frame-page-written-once-instead-of-body] arg0 == w.wrapped && frameable && !w.isAlreadyFramed && commits == 1 && bodyWrites == 0
+//@     do bodyWrites = bodyWrites + 1
+//@   ensures[C14:committed] w.wroteHeader && w.wrapped == old(w.wrapped)
+//@   ensures[C14:pass-body-through-unless-framing] !old(w.wroteHeader) && (!frameable || w.isAlreadyFramed) ==> w.writeBytes && commits == 1
+//@   ensures[C14:swallow-body-when-framing] !old(w.wroteHeader) && frameable && !w.isAlreadyFramed ==> !w.writeBytes
+//@   ensures[C14:second-call-is-noop] old(w.wroteHeader) ==> commits == 0 && bodyWrites == 0 && !asked
+//@   ensures[C14:banner-only-for-unframed-html] bodyWrites == 1 ==> frameable && !w.isAlreadyFramed
+
+//@ func (*bannerResponseWriter).Write props(C14,C07)
+//@   requires w != nil && w.wrapped != nil && w.targetURL != nil && rwHeader[w.wrapped] != nil && (!w.wroteHeader ==> !w.writeBytes) && rwHeader[box(w)] == rwHeader[w.wrapped]
+//@   ghost passed int = 0
+//@   call (http.ResponseWriter).Write
+//@     assert[C14:body-bytes-pass-through-unchanged] arg0 == w.wrapped && arg1 == bs && w.writeBytes && w.wroteHeader && passed == 0
+//@     do passed = passed + 1
+//@   ensures[C14:swallow-original-body-when-framing] !w.writeBytes ==> passed == 0 && r0 == len(bs) && r1 == nil
+//@   ensures[C14:pass-through-otherwise] w.writeBytes ==> passed == 1
